@@ -171,11 +171,9 @@ let () =
         let out k =
           let kk = nat_of_int k in
           Printf.sprintf "M=(b %d) F=%s C=%s P=%s L=%s" (if re_is_match kk r h then 1 else 0) (strs (re_find kk r h)) (strs (re_capture kk r h))
-            (show_str (re_replace kk r h t O)) (show_str (re_replace kk r h t (nat_of_int lim_nat))) in
+            (show_str (re_replace_x kk r h t O)) (show_str (re_replace_x kk r h t (nat_of_int lim_nat))) in
         let a = out 1 and b = out 2 in
-        let has_dollar = (match rep with L (A "s" :: cs) -> List.exists (fun c -> c = A "36") cs | _ -> false) in
-        if has_dollar then Printf.printf "%s UNMODELLED(replacement-expansion)\n" id
-        else if has_nullable_loop r then Printf.printf "%s UNMODELLED(nullable-loop)\n" id
+        if has_nullable_loop r then Printf.printf "%s UNMODELLED(nullable-loop)\n" id
         else if a = b then Printf.printf "%s %s\n" id a else Printf.printf "%s UNMODELLED(fuel)\n" id
     | L [A "uniclass"; A id; A lo; A hi] ->
         let lo = int_of_string lo and hi = int_of_string hi in
